@@ -128,6 +128,16 @@ def run(ctx, rep):
         pair(rep, "WeightedQuadratic(int)=replicated rows:lipschitz_sparse",
              wks.get_lipschitz_sparse(Xs_.data, Xs_.indptr, Xs_.indices, y), qr.get_lipschitz(Xr, yr), inp)
         pair(rep, "WeightedQuadratic(int)=replicated rows:global", wk.get_global_lipschitz(X, y), qr.get_global_lipschitz(Xr, yr), inp, tol=1e-9)
+        # the CSC global constant is a power iteration (unseeded start): equal to the replicated-rows constant up to
+        # its accuracy and never above it (seeded s14: CSC data scaled by the weights instead of their square roots)
+        gs = float(wks.get_global_lipschitz_sparse(Xs_.data, Xs_.indptr, Xs_.indices, y))
+        gr = float(qr.get_global_lipschitz(Xr, yr))
+        rep.count("WeightedQuadratic(int)=replicated rows:global_sparse", False, ("global_sparse", len(rep.nontrivial)))
+        if not (0.9 * gr - 1e-12 <= gs <= gr * (1 + 1e-6) + 1e-12):
+            rep.violate("reduction 'WeightedQuadratic(int)=replicated rows:global_sparse' fails: the CSC global Lipschitz constant "
+                        "with integer sample weights is not that of the replicated-rows design (power-method accuracy allowed)",
+                        dict(site="WeightedQuadratic(int)=replicated rows:global_sparse", kind="reduction"), input=inp,
+                        impl_output=dict(general=gs, special=gr))
         # Efron = Breslow without ties
         tm = np.array(rng.sample(range(1, 40), n), dtype=float)
         scale = rng.choice(["unit", "unit", "timestamps", "close", "days"])
